@@ -146,6 +146,8 @@ def batch_input(b, H):
     x = rs.randint(0, 256, size=(b['n'], 3, H, b['w'])).astype(np.uint8)
     if b.get('dup') and b['n'] >= 2:      # two identical lines in one batch must behave identically
         x[1] = x[0]
+    if b.get('blank') and b['n'] >= (3 if b.get('dup') else 2):
+        x[b['n'] - 1] = 0                 # an entirely black crop (what the cropper hands over for a line it cannot cut)
     return x
 
 
@@ -212,6 +214,8 @@ def gen_plan(seed, tier, index):
             b['abort_at'] = r.randint(0, 6)
         if r.random() < 0.1:
             b['dup'] = True
+        if r.random() < 0.08:
+            b['blank'] = True
         if 'abort_at' not in b and r.random() < 0.12:
             b['forced'] = r.randrange(1 << 30)      # arbitrary target prefix instead of the greedy path
         if r.random() < 0.05:
@@ -234,6 +238,17 @@ def gen_plan(seed, tier, index):
         m['max_seq_len'] = 1120 // 4 + 2 if r.random() < 0.5 else 400
         m['eos_q'] = r.choice([0.6, 0.8, 0.9])
         m['dec_layers'] = min(m['dec_layers'], 2)
+    if r.random() < 0.03:
+        # process_lines on a page of lines of DIFFERENT widths (some split): a line's result must not depend on the
+        # content of the other lines of the call (widths, and with them the canvas geometry, stay the same)
+        batches = [{'n': 0, 'w': 320, 'seed': r.randrange(1 << 30), 'cached': True, 'via': 'process_lines_mixed',
+                    'widths': r.choice([[300, 200, 100, 100], [222, 220, 194, 194], [160, 160, 96, 64, 64], [400, 120, 120]]),
+                    'mlw': r.choice([128, 128, 100000]), 'engine_batch': r.choice([1, 4]), 'change': r.choice([0, 0, 1])}]
+        m['max_seq_len'] = 1120 // 4 + 2 if r.random() < 0.5 else 400
+        m['eos_q'] = r.choice([0.5, 0.6])
+        m['dec_layers'] = min(m['dec_layers'], 2)
+        m.pop('attn_gain', None)
+        return {'world': 'tr', 'model': m, 'poison': r.choice(['nan', 'nan', 'garbage']), 'batches': batches}
     if r.random() < 0.03:
         # through BaseEngineLineOCR.process_lines of the transformer engine: equal-width lines wider than
         # max_line_width are split into overlapping parts, decoded, and stitched together again
@@ -271,7 +286,7 @@ def sut(where, fn, *a, **kw):
 
 def _calibrate(pristine, m, plan):
     wcal = 256 if plan['batches'][0].get('via') else min(64, max(bb['w'] for bb in plan['batches']))
-    if plan['batches'][0].get('via') == 'process_lines':
+    if plan['batches'][0].get('via') in ('process_lines', 'process_lines_mixed'):
         wcal = 64
     return calibrate_eos(pristine, m, wcal)
 
@@ -514,6 +529,48 @@ def process_lines_batch(res, ctx, k, b, x, proj, log):
     return True
 
 
+def process_lines_mixed(res, ctx, k, b, proj, log):
+    """process_lines on lines of different widths: replacing the CONTENT of one line (same shape) must leave the
+    transcription and scores of every other line of the call unchanged."""
+    torch = _torch()
+    m, pristine, live = ctx['m'], ctx['pristine'], ctx['live']
+    rs = np.random.RandomState(int(b['seed']) % (2 ** 31))
+    lines = [rs.randint(0, 256, size=(m['H'], w, 3)).astype(np.uint8) for w in b['widths']]
+    other = [ln.copy() for ln in lines]
+    ch = int(b['change']) % len(lines)
+    other[ch] = rs.randint(0, 256, size=lines[ch].shape).astype(np.uint8)
+    proj.calls, proj.abort_at, proj.cap = 0, None, None
+    try:
+        def engine(net):
+            e = _as_line_engine(make_engine(net, m['nsym']), m, b['mlw'])
+            e.batch_size = b['engine_batch']
+            e.max_input_horizontal_pixels = 480 * b['engine_batch']
+            e.net.dec_out_proj.cap = None
+            return e
+        tr_a, lg_a, _ = sut('process_lines', engine(live.net).process_lines, lines, sparse_logits=False)
+        tr_b, lg_b, _ = sut('process_lines', engine(copy.deepcopy(pristine)).process_lines, other, sparse_logits=False)
+    except SutRaised as e:
+        _viol(res, 'termination', 'decode-raised|%s|%s' % (e.where, type(e.exc).__name__), str(e)[:300], k)
+        return False
+    res.probe('process_lines_mixed_width_pages')
+    for i in range(len(lines)):
+        if i == ch:
+            continue
+        a, c = np.asarray(lg_a[i]), np.asarray(lg_b[i])
+        if not np.isfinite(a).all():
+            _viol(res, 'cache', 'non-finite-scores|%s' % ctx['plan']['poison'], 'process_lines scores contain NaN/inf', k)
+            return False
+        tol = tol_for(torch.from_numpy(c)) if c.size else TOL
+        d = float(np.abs(a - c).max()) if a.shape == c.shape and a.size else (0.0 if a.shape == c.shape else float('inf'))
+        margin = min_margin(torch.from_numpy(c)) if c.ndim == 2 and c.shape[0] and c.shape[1] >= 2 else 1.0
+        if (d > tol or tr_a[i] != tr_b[i]) and margin >= TIE:
+            _viol(res, 'batch-independence', 'process_lines-content-of-other-line',
+                  'line %d (width %d) changed (%r -> %r, score diff %.3g) when only the content of line %d changed' % (i, b['widths'][i], tr_a[i], tr_b[i], d, ch), k)
+            return False
+    log.add('live', 'process_lines_mixed', [k, b['widths'], b['mlw'], kernel.sha(tr_a)])
+    return True
+
+
 def run_ocr_batch(res, ctx, k, b, x, proj, log):
     """One batch through TransformerEngineLineOCR.run_ocr (uint8 NHWC in, centre padding to 1088 px):
     must equal transcribe_batch on a fresh model given the explicitly padded input."""
@@ -630,6 +687,12 @@ def execute(plan):
                     except SutRaised as e:
                         _viol(res, 'termination', 'decode-raised|%s|%s' % (e.where, type(e.exc).__name__), str(e)[:300], k)
                         ok = False
+                    prev = b
+                    if not ok:
+                        break
+                    continue
+                if b.get('via') == 'process_lines_mixed':
+                    ok = process_lines_mixed(res, ctx, k, b, proj, log)
                     prev = b
                     if not ok:
                         break
